@@ -388,6 +388,10 @@ class ExprMixin:
             ety = self.hint_type(e) or (vals[0].ty if vals else None)
             if ety is not None and ety[0] == 'enum':
                 ety = INT
+            if ety is not None and self.hint_type(e) is None and any(v.ty[0] != ety[0] for v in vals if not isinstance(v, VEnum)):
+                # a list literal of values of different kinds (e.g. a CBOR structure): an immutable tuple value
+                out.append((s, VTuple(vals)))
+                continue
             if ety is None:
                 # element type fixed at first append
                 l = VList(None, None)
